@@ -41,6 +41,16 @@ func sizeLadderSources(r *rand.Rand, thorough bool) []struct{ name, src string }
 		out = append(out, struct{ name, src string }{"input", "#" + strings.Repeat("c", n) + "\nprint 1 + 2\nprint nosuch\n"})
 		out = append(out, struct{ name, src string }{"input", strings.Repeat("\n", n) + "print 1 / 0\n"})
 	}
+	// every string length up to 400 (scratch-buffer growth in Dump), and pairs of strings
+	// where a second, slightly longer one follows a first that already grew the buffer
+	for n := 0; n <= 400; n++ {
+		out = append(out, struct{ name, src string }{"", `print "` + strings.Repeat("b", n) + `"`})
+	}
+	for i := 0; i < 60; i++ {
+		l1 := 90 + r.Intn(400)
+		l2 := l1 + r.Intn(14)
+		out = append(out, struct{ name, src string }{"input", `print "` + strings.Repeat("c", l1) + `"` + "\n" + `print "` + strings.Repeat("d", l2) + `"`})
+	}
 	// many constants (indices ≥ 241 need two bytes)
 	var b strings.Builder
 	for i := 0; i < 300; i++ {
@@ -53,7 +63,7 @@ func sizeLadderSources(r *rand.Rand, thorough bool) []struct{ name, src string }
 	return out
 }
 
-func runAll(prog *bcl.Prog, out, log *bytes.Buffer) string {
+func runAll(prog *bcl.Prog, out, log *capBuf) string {
 	res, binding, err := bcl.Execute(prog)
 	e := "-"
 	if err != nil {
@@ -68,7 +78,7 @@ func runAll(prog *bcl.Prog, out, log *bytes.Buffer) string {
 // checkDumpLoad is the direct oracle of C09 on one accepted program.
 func checkDumpLoad(res *Result, d *Driver, r *rand.Rand, name string, src []byte) {
 	verdict := guarded(opTimeout, func() string {
-		var out, log bytes.Buffer
+		var out, log capBuf
 		prog, err := bcl.Parse(src, name, bcl.OptOutput(&out), bcl.OptLogger(&log), bcl.OptDisasm(true))
 		if err != nil {
 			return "rejected"
@@ -91,8 +101,9 @@ func checkDumpLoad(res *Result, d *Driver, r *rand.Rand, name string, src []byte
 		}
 		exec0 := runAll(prog, &out, &log)
 		for _, rd := range readers {
-			var out2, log2 bytes.Buffer
-			p2, err := bcl.LoadProg(rd.mk(), name, bcl.OptOutput(&out2), bcl.OptLogger(&log2), bcl.OptDisasm(true))
+			var out2, log2 capBuf
+			// the name given to LoadProg is only a default: the dump's own name (also an empty one) wins
+			p2, err := bcl.LoadProg(rd.mk(), "name-given-at-load-time", bcl.OptOutput(&out2), bcl.OptLogger(&log2), bcl.OptDisasm(true))
 			if err != nil {
 				return fmt.Sprintf("FAIL LoadProg(%s reader) of a fresh dump: %v", rd.kind, err)
 			}
